@@ -332,6 +332,155 @@ ssize_t    __wrap_copy_file_range(int a, off_t* b, int c, off_t* d, size_t e, un
   return __real_copy_file_range(a, b, c, d, e, f);
 }
 
+// ---- default allocator (src/allocator.c): record the libc calls its entries make
+static int   rec_on;
+static char  rec_buf[4096];
+static void* rec_blk[64];
+static size_t rec_size[64];
+static int   rec_nblk;
+void*        __real_malloc(size_t);
+void*        __real_calloc(size_t, size_t);
+void*        __real_realloc(void*, size_t);
+void         __real_free(void*);
+int          __real_posix_memalign(void**, size_t, size_t);
+static int   rec_index(void* p)
+{
+  for (int i = 0; i < rec_nblk; ++i) {
+    if (rec_blk[i] == p) {
+      return i;
+    }
+  }
+  return -1;
+}
+static void rec_add(const char* s)
+{
+  strncat(rec_buf, rec_buf[0] ? "," : "", sizeof(rec_buf) - strlen(rec_buf) - 1);
+  strncat(rec_buf, s, sizeof(rec_buf) - strlen(rec_buf) - 1);
+}
+void* __wrap_malloc(size_t n)
+{
+  if (rec_on) {
+    char b[64];
+    snprintf(b, sizeof(b), "malloc(%zu)", n);
+    rec_add(b);
+  }
+  return __real_malloc(n);
+}
+void* __wrap_calloc(size_t n, size_t s)
+{
+  if (rec_on) {
+    char b[64];
+    snprintf(b, sizeof(b), "calloc(%zu;%zu)", n, s);
+    rec_add(b);
+  }
+  return __real_calloc(n, s);
+}
+void* __wrap_realloc(void* p, size_t n)
+{
+  if (rec_on) {
+    char b[64];
+    snprintf(b, sizeof(b), "realloc(#%d;%zu)", rec_index(p), n);
+    rec_add(b);
+  }
+  return __real_realloc(p, n);
+}
+void __wrap_free(void* p)
+{
+  if (rec_on) {
+    char b[64];
+    snprintf(b, sizeof(b), "free(#%d)", rec_index(p));
+    rec_add(b);
+  }
+  __real_free(p);
+}
+int __wrap_posix_memalign(void** out, size_t al, size_t n)
+{
+  if (rec_on) {
+    char b[64];
+    snprintf(b, sizeof(b), "posix_memalign(%zu;%zu)", al, n);
+    rec_add(b);
+  }
+  return __real_posix_memalign(out, al, n);
+}
+
+// requests: m<size> c<n>x<size> r<blk>:<size> f<blk> a<align>:<size> F<blk>   (blk = index of the i-th block obtained)
+ZixAllocator* __real_zix_default_allocator(void);
+static void   run_default(char** req, int n)
+{
+  ZixAllocator* d = __real_zix_default_allocator();
+  rec_buf[0]      = 0;
+  rec_nblk        = 0;
+  int bad         = 0;
+  for (int i = 0; i < n; ++i) {
+    const char c = req[i][0];
+    void*      p = NULL;
+    rec_on       = 1;
+    if (c == 'm') {
+      p      = zix_malloc(NULL, strtoul(req[i] + 1, 0, 10)); // NULL = the default allocator, through the public wrapper
+      rec_on = 0;
+      if (p && strtoul(req[i] + 1, 0, 10)) {
+        memset(p, 0x5A, strtoul(req[i] + 1, 0, 10));
+      }
+    } else if (c == 'c') {
+      char* x = strchr(req[i], 'x');
+      const size_t cn = strtoul(req[i] + 1, 0, 10), cs = strtoul(x + 1, 0, 10);
+      p               = d->calloc(d, cn, cs);
+      rec_on          = 0;
+      for (size_t k = 0; p && k < cn * cs; ++k) {
+        if (((unsigned char*)p)[k]) {
+          bad |= 2; // calloc memory not zero
+        }
+      }
+      if (p && cn * cs) {
+        memset(p, 0x5A, cn * cs);
+      }
+    } else if (c == 'a') {
+      char* x = strchr(req[i], ':');
+      p       = zix_aligned_alloc(NULL, strtoul(req[i] + 1, 0, 10), strtoul(x + 1, 0, 10));
+      if (p && ((uintptr_t)p % strtoul(req[i] + 1, 0, 10))) {
+        bad = 1;
+      }
+    } else if (c == 'r') {
+      char* x = strchr(req[i], ':');
+      int   b = atoi(req[i] + 1);
+      if (b < rec_nblk) {
+        void* q = d->realloc(d, rec_blk[b], strtoul(x + 1, 0, 10));
+        rec_on  = 0;
+        if (q) {
+          rec_blk[b] = q;
+          if (rec_size[b] && strtoul(x + 1, 0, 10) && ((unsigned char*)q)[0] != 0x5A) {
+            bad |= 4; // realloc lost the contents
+          }
+          rec_size[b] = strtoul(x + 1, 0, 10);
+          memset(q, 0x5A, rec_size[b]);
+        }
+      }
+    } else if (c == 'f' || c == 'F') {
+      int b = atoi(req[i] + 1);
+      if (b < rec_nblk && rec_blk[b]) {
+        if (c == 'f') {
+          zix_free(NULL, rec_blk[b]);
+        } else {
+          zix_aligned_free(NULL, rec_blk[b]);
+        }
+        rec_on     = 0;
+        rec_blk[b] = NULL;
+      }
+    }
+    rec_on = 0;
+    if ((c == 'm' || c == 'c' || c == 'a') && rec_nblk < 64) {
+      char* x2            = strchr(req[i], c == 'c' ? 'x' : ':');
+      rec_size[rec_nblk]  = c == 'm' ? strtoul(req[i] + 1, 0, 10) : c == 'c' ? strtoul(req[i] + 1, 0, 10) * strtoul(x2 + 1, 0, 10) : 0;
+      rec_blk[rec_nblk++] = p;
+    }
+  }
+  for (int i = 0; i < rec_nblk; ++i) { // release what is left (not recorded)
+    __real_free(rec_blk[i]);
+  }
+  printf("calls=%s sem=%d", rec_buf[0] ? rec_buf : "-", bad);
+  report_tail(0);
+}
+
 // the driver always supplies an allocator, so the library must never ask for the default one
 static size_t  default_allocator_calls;
 ZixAllocator* __real_zix_default_allocator(void);
@@ -531,6 +680,8 @@ int main(void)
       report_tail(0);
     } else if (!strcmp(c, "fs") && n >= 3) {
       run_fs(tok + 2, n - 2);
+    } else if (!strcmp(c, "default")) {
+      run_default(tok + 2, n - 2);
     } else {
       puts("?");
     }
